@@ -98,10 +98,11 @@ func build(tier string) []*vkit.Scenario {
 		{f: 2, writers: []string{"m", "m", "m"}, p: 2},
 		{f: 2, writers: []string{"m", "m", "p"}, p: 2},
 		{f: 2, writers: []string{"m", "s", "p"}, p: 3},
+		{f: 2, writers: []string{"g", "m"}, p: 3},
+		{f: 2, writers: []string{"g", "f"}, p: 3},
 	} {
-		if d.writers[1] == "f" && d.writers[0] == "m" {
-			continue // a WriteFrame sequence is not a unit nbio can protect; kept out (Assumptions)
-		}
+		// "m","f": a WriteFrame sequence is not a unit nbio can protect; judged frame by frame
+		// (judgeFrames), the message-level judge only for the WriteMessage call
 		d.p = bump(d.p)
 		add(d.name(), directBody(d), d.p, ntWire)
 	}
@@ -138,6 +139,25 @@ func build(tier string) []*vkit.Scenario {
 		{qcfg{f: 2, writers: []string{"m", "s"}, failAt: 1, closeBy: "none"}, 2, 3},
 		{qcfg{f: 2, writers: []string{"mm"}, failAt: 4, closeBy: "eof"}, 2, 3},
 		{qcfg{f: 2, writers: []string{"m"}, closeBy: "eof", inbound: 1, echo: true}, 2, 3},
+		// WriteFrame callers (the public frame API): single frames ('g') and a hand-made fragmented
+		// sequence ('f'), alone, next to a WriteMessage writer, and against a bounded queue that is
+		// full / has exactly one slot left (default schedule: the drainer has not run yet), with a
+		// follow-up frame once everything has drained
+		{qcfg{f: 2, writers: []string{"f"}, closeBy: "none", after: true}, 2, 3},
+		{qcfg{f: 2, writers: []string{"f", "p"}, closeBy: "none"}, 1, 2},
+		{qcfg{f: 2, writers: []string{"f", "m"}, closeBy: "none"}, 1, 2},
+		{qcfg{f: 2, writers: []string{"g", "m"}, closeBy: "none", after: true}, 2, 3},
+		{qcfg{f: 2, writers: []string{"gg"}, qmax: 1, closeBy: "none", after: true}, 2, 3},
+		{qcfg{f: 2, writers: []string{"ggg"}, qmax: 2, closeBy: "none", after: true}, 2, 3},
+		{qcfg{f: 2, writers: []string{"gf"}, qmax: 2, closeBy: "none", after: true}, 2, 3},
+		{qcfg{f: 2, writers: []string{"f"}, qmax: 2, closeBy: "none", after: true}, 2, 3},
+		{qcfg{f: 2, writers: []string{"gg", "p"}, qmax: 1, closeBy: "none", after: true}, 1, 2},
+		{qcfg{f: 2, writers: []string{"gg", "m"}, qmax: 4, closeBy: "none", after: true}, 1, 2},
+		{qcfg{f: 2, writers: []string{"g", "g", "g"}, qmax: 2, closeBy: "none", after: true}, 1, 2},
+		{qcfg{f: 2, writers: []string{"gf", "m"}, qmax: 4, closeBy: "none", after: true}, 1, 2},
+		{qcfg{f: 2, writers: []string{"ggg"}, qmax: 2, closeBy: "eof"}, 1, 2},
+		{qcfg{f: 2, writers: []string{"gg"}, qmax: 1, closeBy: "close"}, 1, 2},
+		{qcfg{f: 2, writers: []string{"g"}, closeBy: "none", inbound: 1, echo: true}, 1, 2},
 		// the same Upgrade path without the send queue (BlockingModAsyncWrite=false)
 		{qcfg{f: 2, direct: true, writers: []string{"m", "m"}, closeBy: "none"}, 2, 3},
 		{qcfg{f: 2, direct: true, writers: []string{"m", "m"}, closeBy: "eof"}, 2, 3},
@@ -149,7 +169,15 @@ func build(tier string) []*vkit.Scenario {
 		if thorough {
 			q.p = x.pt
 		}
-		add(q.name(), queuedBody(q), q.p, ntQ)
+		nt := ntQ
+		if strings.ContainsAny(strings.Join(q.writers, ""), "gf") {
+			bounded, after := q.qmax > 0, q.after
+			nt = func(m map[string]int) bool {
+				return m["writeframe_calls_accepted"] > 0 && (!bounded || m["writeframe_calls_refused_queue_full"] > 0) &&
+					(!after || m["writeframe_followup_accepted"] > 0)
+			}
+		}
+		add(q.name(), queuedBody(q), q.p, nt)
 	}
 
 	// ---- (c) with negotiated compression: bounded queue x frame limit x deflated length (zqueue.go)
@@ -315,11 +343,12 @@ func main() {
 	settle()
 	vkit.Main(&vkit.Spec{
 		Property: "C14", Level: "model_checking",
-		Rule: "one scenario = family x configuration. (a) epoll mode x server executor (goroutine per call, default task pool, inline) x client frame script (0-3 messages, one optionally fragmented, 1-2 bursts; conforming client that waits for the 101 response, or a frame in the same burst as the upgrade request, or bursts sent without waiting) x ending (peer FIN, peer RST, Close from a message handler, from OnOpen, from another thread, FIN and Close together), optionally with the handler echoing through WriteMessage, on the real nbhttp engine + Upgrader.Upgrade scenario 1; (a-panic) the same stack with a user callback that panics once (nbio.Conn.execute recovers the panic of a queued job): the handler of the first or of a middle message of three (also right after it called Close), or the OnOpen handler (which runs inside the upgrade request's job), or both, followed by more messages x ending (FIN, RST, Close from a later handler, Close from another thread, FIN and Close together); (b) writer scripts (WriteMessage of 2F+1 bytes = 3 fragments, single frames, pings, a WriteFrame sequence) of 2-3 threads on a direct-mode server Conn; (c) the same writers on a Conn from Upgrade scenario 4 (unknown net.Conn type, read loop started by Upgrade) with the send queue x queue limit x failing k-th write x close source (none, peer EOF, Close + virtual close delay, a writer that closes) x inbound messages (with echo), and without the send queue; (c-deflate) the bounded send queue with permessage-deflate negotiated through the real Upgrade (EnableCompression + extension header) and a 16-byte frame limit: a writer queues 0-3 small messages and then one big message whose class and length decide how many frames it needs AFTER deflate - incompressible (deterministic pseudo-random bytes, verified when the scenario list is built to deflate to MORE bytes than the input) of every length kF-d, d in 0..6, which needs one frame more than its uncompressed length suggests for d<6, and compressible (shrinks below a frame boundary) - x queue limit leaving exactly k or k+1 (fc or fu) free slots x a follow-up message written after the queue drained, plus variants with a ping in the queue, a second writer, a racing close; (d) two writers on the engine-backed Conn x socket capacity (everything fits / 16 bytes) x no close / Close from another thread. Every interleaving within the preemption bound is executed on the real code. Non-trivial = the scenario delivered messages and ran OnClose (a) / put messages on the wire while a second writer was inside its call between two fragments of the first (b, d) / put messages on the wire or delivered inbound messages (c) / put RSV1 messages on the wire and had the follow-up message accepted (c-deflate)",
+		Rule: "one scenario = family x configuration. (a) epoll mode x server executor (goroutine per call, default task pool, inline) x client frame script (0-3 messages, one optionally fragmented, 1-2 bursts; conforming client that waits for the 101 response, or a frame in the same burst as the upgrade request, or bursts sent without waiting) x ending (peer FIN, peer RST, Close from a message handler, from OnOpen, from another thread, FIN and Close together), optionally with the handler echoing through WriteMessage, on the real nbhttp engine + Upgrader.Upgrade scenario 1; (a-panic) the same stack with a user callback that panics once (nbio.Conn.execute recovers the panic of a queued job): the handler of the first or of a middle message of three (also right after it called Close), or the OnOpen handler (which runs inside the upgrade request's job), or both, followed by more messages x ending (FIN, RST, Close from a later handler, Close from another thread, FIN and Close together); (b) writer scripts (WriteMessage of 2F+1 bytes = 3 fragments, single frames, pings, a hand-made WriteFrame sequence first/continuation/final, a single-frame message through WriteFrame) of 2-3 threads on a direct-mode server Conn; (c) the same writers on a Conn from Upgrade scenario 4 (unknown net.Conn type, read loop started by Upgrade) with the send queue x queue limit x failing k-th write x close source (none, peer EOF, Close + virtual close delay, a writer that closes) x inbound messages (with echo), and without the send queue; (c-frames) callers of the public WriteFrame API on the send queue: single frames and a fragmented sequence, alone, next to a ping writer, next to a WriteMessage writer, from three threads, against a bounded queue that is full or has exactly one slot left when the call is made (the drainer has not run in the default schedule; preemptions let it), with a follow-up WriteFrame once everything has drained, and with a racing close; (c-deflate) the bounded send queue with permessage-deflate negotiated through the real Upgrade (EnableCompression + extension header) and a 16-byte frame limit: a writer queues 0-3 small messages and then one big message whose class and length decide how many frames it needs AFTER deflate - incompressible (deterministic pseudo-random bytes, verified when the scenario list is built to deflate to MORE bytes than the input) of every length kF-d, d in 0..6, which needs one frame more than its uncompressed length suggests for d<6, and compressible (shrinks below a frame boundary) - x queue limit leaving exactly k or k+1 (fc or fu) free slots x a follow-up message written after the queue drained, plus variants with a ping in the queue, a second writer, a racing close; (d) two writers on the engine-backed Conn x socket capacity (everything fits / 16 bytes) x no close / Close from another thread. Every interleaving within the preemption bound is executed on the real code. Non-trivial = the scenario delivered messages and ran OnClose (a) / put messages on the wire while a second writer was inside its call between two fragments of the first (b, d) / put messages on the wire or delivered inbound messages (c) / put RSV1 messages on the wire and had the follow-up message accepted (c-deflate)",
 		Assumptions: []string{
 			"sequentially consistent interleavings at lock / atomic / channel / syscall / timer operations and at the harness points (fake conn Write/Read/Close, inside every callback); unsynchronised field accesses are interleaved only for the fields the overlay generator lists as racy (cmd/ovgen racyFields: websocket.Conn.closed, nbio.Conn.closed, ... - not nbio.Conn.session, which Upgrade swaps without a lock)",
 			"covered upgrade paths: scenario 1 (*nbio.Conn owned by the engine, all three epoll modes, IOModNonBlocking) and scenario 4 (unknown net.Conn type: blocking mode with own read loop and send queue). NOT covered: scenarios 2, 3 and the transfer-to-poller variants need a real *net.TCPConn / llib *tls.Conn on real descriptors and real goroutines, out of reach of the cooperative scheduler; their ordering rests on the same Execute / MustExecute queue, Engine.SyncCall and send-queue code explored here",
 			"unit of atomicity on the wire: one WriteMessage call (all its fragments) or one WriteFrame call (one frame); a multi-call WriteFrame sequence is only required to stay whole when the other writers send control frames (RFC 6455 allows those between fragments) - nbio has no API to reserve the connection across calls",
+			"WriteFrame callers are judged frame by frame (judgeFrames): a frame whose call returned an error (queue full, closed) is not on the wire; an accepted frame is on the wire at most once and exactly once when nothing closed the connection; every frame on the wire is one that some caller wrote, byte for byte (the tracking allocator's poison on the wire = a freed buffer was sent: freed-buffer-sent); the frames of one thread keep the order of its calls; the frames of one WriteMessage call stay adjacent whatever the frame callers do. When a hand-made fragmented sequence runs next to another data writer, or against a queue limit that can refuse its continuation (the caller then stops), the wire need not be a legal RFC 6455 message sequence - that is the caller's responsibility - and the message-level judge is not applied to those scenarios (counter frame_level_only_executions)",
 			"order on the wire is only constrained by real-time precedence (a call that returned before another was made) and program order of one thread",
 			"queued mode: a message accepted (nil) may be lost when a close begins before the drainer wrote it (the queue is dropped by CloseAndClean); required: what is on the wire is a prefix-closed, duplicate-free, non-interleaved sequence of whole messages (the last one may be cut by the close), no accepted message is skipped in favour of a later one, everything accepted comes out when no close happens, nothing is accepted by the conn after OnClose started. A Write *call* of the drainer that finds the conn already closed (fails, writes nothing) is counted, not reported",
 			"bounded queue (BlockingModSendQueueMaxSize>0): a WriteMessage refused with ErrMessageSendQuqueIsFull must leave none of its frames on the wire, and everything accepted before and after it comes out whole, exactly once, in order; refusing a message that would have fitted is not judged (counted: z_followup_accepted), exceeding the bound is not judged either",
